@@ -24,6 +24,7 @@ type SpecEnv struct {
 	bound    map[string]bool // names bound by quantifiers (shadow locals)
 	usedHeaps *[]string // when translating a spec function body: heaps read
 	atlockState *State  // what atlock() denotes when a callee's postcondition is assumed at a call site
+	panicking   string  // what panicking() denotes ("" = this activation's own flag)
 }
 
 type specErr string
@@ -640,6 +641,11 @@ func (env *SpecEnv) call(x ECall) SpecVal {
 		n := *env
 		n.cur = env.old
 		return n.tr(x.Args[0])
+	case "panicking":
+		if env.panicking != "" {
+			return SpecVal{env.panicking, "Bool", nil}
+		}
+		return SpecVal{g.panickingConst(), "Bool", nil}
 	case "atlock":
 		// the state right after the function acquired its monitor lock (what the other threads left behind)
 		n := *env
